@@ -61,7 +61,11 @@ pub fn convert(
                 true,
             )
         }
-        Expression::ArrayElement(_name, _indices, expression_type) => {
+        Expression::ArrayElement(_name, indices, expression_type) => {
+            if indices.is_empty() {
+                // A().B : the whole array does not have members
+                return Err(LintError::TypeMismatch.at_pos(extra.pos));
+            }
             let temp_expression_type = expression_type.clone();
             existing_property_expression_type(
                 ctx,
